@@ -22,10 +22,10 @@ type TP struct {
 }
 
 type UD struct {
-	Err    bool  `json:"err,omitempty"`
-	Parts  []TP  `json:"parts"`
-	HasGen bool  `json:"has_gen"`
-	Gen    int   `json:"gen"`
+	Err    bool `json:"err,omitempty"`
+	Parts  []TP `json:"parts"`
+	HasGen bool `json:"has_gen"`
+	Gen    int  `json:"gen"`
 }
 
 type Member struct {
@@ -393,16 +393,16 @@ func (o *Oracle) Coq() string {
 }
 
 type StickyRun struct {
-	In      Input       `json:"in"`
-	Oracle  Oracle      `json:"oracle"`
-	Hooked  bool        `json:"hooked"`
-	Err     bool        `json:"err"`
-	Panic   string      `json:"panic,omitempty"`
-	Hang    bool        `json:"hang,omitempty"`
-	NPicks  int         `json:"npicks,omitempty"` // reverse-pair redirections reported (all of them, also when the oracle list is cut)
-	Plan    []PlanEntry `json:"plan"`
+	In      Input                      `json:"in"`
+	Oracle  Oracle                     `json:"oracle"`
+	Hooked  bool                       `json:"hooked"`
+	Err     bool                       `json:"err"`
+	Panic   string                     `json:"panic,omitempty"`
+	Hang    bool                       `json:"hang,omitempty"`
+	NPicks  int                        `json:"npicks,omitempty"` // reverse-pair redirections reported (all of them, also when the oracle list is cut)
+	Plan    []PlanEntry                `json:"plan"`
 	RawPlan sarama.BalanceStrategyPlan `json:"-"`
-	Other   map[string]int `json:"other,omitempty"`
+	Other   map[string]int             `json:"other,omitempty"`
 }
 
 func tps(l []sarama.VerifTP) []TP {
@@ -848,4 +848,170 @@ func EncodeUD(in *Input) {
 			m.Data, _ = sarama.VerifStickyEncodeV0(t)
 		}
 	}
+}
+
+// ---------------------------------------------------------------- C13 oracles
+
+// Totals: number of partitions per member (members without entry count 0).
+func Totals(in *Input, plan []PlanEntry) map[string]int {
+	t := map[string]int{}
+	for _, m := range in.Members {
+		t[m.ID] = 0
+	}
+	for _, e := range plan {
+		for _, te := range e.Topics {
+			t[e.Member] += len(te.Parts)
+		}
+	}
+	return t
+}
+
+// Owners: partition -> member.
+func Owners(plan []PlanEntry) map[TP]string {
+	o := map[TP]string{}
+	for _, e := range plan {
+		for _, te := range e.Topics {
+			for _, p := range te.Parts {
+				o[TP{te.Topic, p}] = e.Member
+			}
+		}
+	}
+	return o
+}
+
+// KafkaBalanced: no member holds two or more partitions more than another member while holding a partition the other
+// could take (subscribes to its topic). Returns "" or a description of the offending pair.
+func KafkaBalanced(in *Input, plan []PlanEntry) string {
+	tot := Totals(in, plan)
+	for _, e := range plan {
+		for _, te := range e.Topics {
+			if len(te.Parts) == 0 {
+				continue
+			}
+			for _, c := range in.Members {
+				if c.ID != e.Member && tot[c.ID]+1 < tot[e.Member] && in.Subscribes(c.ID, te.Topic) {
+					return fmt.Sprintf("%s holds %d partitions incl. %s/%d, %s holds %d and subscribes to %s", e.Member, tot[e.Member], te.Topic, te.Parts[0], c.ID, tot[c.ID], te.Topic)
+				}
+			}
+		}
+	}
+	return ""
+}
+
+// IdenticalSubs: every member subscribes to exactly the same set of topics.
+func IdenticalSubs(in *Input) bool {
+	if len(in.Members) == 0 {
+		return true
+	}
+	set := func(m Member) string {
+		l := append([]string(nil), m.Topics...)
+		sort.Strings(l)
+		var u []string
+		for i, x := range l {
+			if i == 0 || x != l[i-1] {
+				u = append(u, x)
+			}
+		}
+		return strings.Join(u, "\x00")
+	}
+	s0 := set(in.Members[0])
+	for _, m := range in.Members[1:] {
+		if set(m) != s0 {
+			return false
+		}
+	}
+	return true
+}
+
+// PairSwap: two partitions of one topic exchanged owners between two plans (p: a->b and q: b->a). Returns "" or a description.
+func PairSwap(before, after []PlanEntry) string {
+	ob, oa := Owners(before), Owners(after)
+	type mv struct{ topic, from, to string }
+	seen := map[mv]TP{}
+	for p, a := range ob {
+		if b, ok := oa[p]; ok && a != b {
+			seen[mv{p.T, a, b}] = p
+		}
+	}
+	for k, p := range seen {
+		if q, ok := seen[mv{k.topic, k.to, k.from}]; ok {
+			return fmt.Sprintf("%s/%d moved %s->%s while %s/%d moved %s->%s", p.T, p.P, k.from, k.to, q.T, q.P, k.to, k.from)
+		}
+	}
+	return ""
+}
+
+// SamePlanSets: equal as member -> set of partitions.
+func SamePlanSets(a, b []PlanEntry) bool {
+	oa, ob := Owners(a), Owners(b)
+	if len(oa) != len(ob) {
+		return false
+	}
+	for p, m := range oa {
+		if ob[p] != m {
+			return false
+		}
+	}
+	return true
+}
+
+// MovedBetween: partitions that changed owner between two plans where both owners are in the set `among`.
+func MovedBetween(before, after []PlanEntry, among map[string]bool) []TP {
+	ob, oa := Owners(before), Owners(after)
+	var l []TP
+	for p, a := range ob {
+		if b, ok := oa[p]; ok && a != b && among[a] && among[b] {
+			l = append(l, p)
+		}
+	}
+	sort.Slice(l, func(i, j int) bool { return l[i].T < l[j].T || (l[i].T == l[j].T && l[i].P < l[j].P) })
+	return l
+}
+
+// NewWorldIdent is NewWorld for honest chains with a fixed subscription style.
+func NewWorldIdent(r *rand.Rand, nm, nt, maxp int, ident bool) *World {
+	w := &World{R: r, Topics: map[string][]int32{}, Members: map[string]*Member{}, Kind: "honest"}
+	perm := r.Perm(len(topicNames))
+	for t := 0; t < nt; t++ {
+		w.Topics[topicNames[perm[t]]] = Seq(r.Intn(maxp + 1))
+	}
+	for i := 0; i < nm; i++ {
+		w.join(ident)
+	}
+	return w
+}
+
+// MutateKind applies one change and says which: none | join | leave | other. With ident, subscriptions stay identical
+// (all topics) and only joins, leaves and unchanged replans happen.
+func (w *World) MutateKind(ident bool) string {
+	r := w.R
+	ms := w.memberList()
+	if ident {
+		switch k := r.Intn(3); {
+		case k == 0:
+			return "none"
+		case k == 1 || len(ms) <= 1:
+			w.join(true)
+			return "join"
+		default:
+			id := ms[r.Intn(len(ms))]
+			delete(w.Members, id)
+			w.Log = append(w.Log, "leave "+id)
+			return "leave"
+		}
+	}
+	switch k := r.Intn(5); {
+	case k == 0:
+		return "none"
+	case k == 1:
+		w.join(false)
+		return "join"
+	case k == 2 && len(ms) > 1:
+		id := ms[r.Intn(len(ms))]
+		delete(w.Members, id)
+		w.Log = append(w.Log, "leave "+id)
+		return "leave"
+	}
+	w.Mutate()
+	return "other"
 }
